@@ -76,9 +76,12 @@ WEIGHTED_PAIRS = _weighted_pairs()
 
 # ------------------------------------------------------------------------------
 # generators
-def _size_case(resource, schema, smt=0, nodes=0, cores=0, gpus=0, backup=0):
+def _size_case(resource, schema, smt=0, nodes=0, cores=0, gpus=0, backup=0, bulk_pos=0):
+    # bulk_pos: how many other pilots of the same bulk are prepared before this one with the
+    # SAME resource config object (as _start_pilot_bulk does)
     return {'kind': 'size', 'resource': resource, 'schema': schema, 'smt': smt,
-            'nodes': nodes, 'cores': cores, 'gpus': gpus, 'backup': backup}
+            'nodes': nodes, 'cores': cores, 'gpus': gpus, 'backup': backup,
+            'bulk_pos': bulk_pos}
 
 
 def _grid(resource, schema, tier):
@@ -142,7 +145,8 @@ def size_cases(draw):
     if mode == 'nodes':
         return _size_case(resource, schema, smt,
                           nodes=draw(st.integers(1, 64)),
-                          backup=draw(st.sampled_from([0, 0, 1, 2])))
+                          backup=draw(st.sampled_from([0, 0, 1, 2])),
+                          bulk_pos=draw(st.sampled_from([0, 0, 1, 2])))
     cc = c or 16
     k  = draw(st.integers(0, 64))
     d  = draw(st.one_of(st.sampled_from([-1, 0, 1]), st.integers(-(cc - 1), cc - 1)))
@@ -159,7 +163,8 @@ def size_cases(draw):
             gpus = max(0, kg * g + draw(st.integers(-(g - 1), g - 1)) if g > 1 else kg)
     elif not g and mode != 'cores':
         gpus = draw(st.sampled_from([0, 0, 0, 1, 5]))
-    return _size_case(resource, schema, smt, cores=cores, gpus=gpus)
+    return _size_case(resource, schema, smt, cores=cores, gpus=gpus,
+                      bulk_pos=draw(st.sampled_from([0, 0, 1, 2])))
 
 
 def parts(tier):
@@ -177,7 +182,7 @@ def normalise(case):
     if case['kind'] == 'resolve':
         return {'kind': 'resolve', 'resource': case['resource'], 'schema': case['schema']}
     out = _size_case(case['resource'], case['schema'])
-    for k in ('smt', 'nodes', 'cores', 'gpus', 'backup'):
+    for k in ('smt', 'nodes', 'cores', 'gpus', 'backup', 'bulk_pos'):
         v = case.get(k, 0)
         out[k] = max(0, v) if isinstance(v, int) and not isinstance(v, bool) else 0
     if out['smt'] not in SMTS:
@@ -366,7 +371,7 @@ def run_resolve(case):
 
 
 # ------------------------------------------------------------------------------
-def _prepare(resource, schema, f, smt, nodes, cores, gpus, backup):
+def _prepare(resource, schema, f, smt, nodes, cores, gpus, backup, bulk_pos=0):
     """pilot description -> pilot dict -> _prepare_pilot; returns dict with
     'pilot', 'agent_file' (parsed agent_0.cfg), 'error', 'stage'"""
     out  = {'pilot': None, 'agent_file': None, 'error': None, 'stage': None}
@@ -391,6 +396,10 @@ def _prepare(resource, schema, f, smt, nodes, cores, gpus, backup):
             rcfg, expand = L.bulk_rcfg(sess, resource, schema, pilot)
             out['stage'] = 'prepare_pilot'
             lc = L.hollow_launcher(sess)
+            for k in range(min(3, bulk_pos)):
+                # earlier pilots of the same bulk share the resource config object
+                other = L.pilot_doc(sess, dict(descr, uid='pilot.%04d' % (k + 1)))
+                lc._prepare_pilot(resource, rcfg, other, expand, 'verif.tgz')
             lc._prepare_pilot(resource, rcfg, pilot, expand, 'verif.tgz')
             out['pilot'] = pilot
             out['stage'] = 'agent_cfg_file'
@@ -426,7 +435,10 @@ def run_size(case):
         res.label('non_multiple')
     res.nontrivial = bool(c and nonmult and (g or smt > 1 or f['nbc']))
 
-    out = _prepare(resource, schema, f, smt_env, nodes, cores, gpus, backup)
+    out = _prepare(resource, schema, f, smt_env, nodes, cores, gpus, backup,
+                   case.get('bulk_pos', 0))
+    if case.get('bulk_pos'):
+        res.label('later_pilot_of_a_bulk')
     e   = out['error']
 
     if e is not None and out['stage'] in ('pilot', 'resource_config'):
